@@ -422,6 +422,59 @@ func (g *gworld) inactiveDue(at time.Time) int {
 	return n
 }
 
+// sameBlockSpender: does the KNOWN mechanism alone explain a refund that fails in this very block?  The events of the block are
+// replayed with the arithmetic of the unchanged code (a tallied proposal's deposits are settled first; the messages of a passing
+// one are committed only if all succeed; a payment needs the balance; a deposit from the gov account is refused): the answer is the
+// passed proposal whose committed payment makes a LATER refund of the same block fail, or "" when the replay sees no failure.
+func (g *gworld) sameBlockSpender(evs []string) string {
+	bal, _ := g.escrowReal()
+	deps := map[string]sdkmath.Int{}
+	_ = g.s.App.GovKeeper.Deposits.Walk(g.ctx(), nil, func(key collections.Pair[uint64, sdk.AccAddress], d v1.Deposit) (bool, error) {
+		k := fmt.Sprint(key.K1())
+		if _, ok := deps[k]; !ok {
+			deps[k] = sdkmath.ZeroInt()
+		}
+		deps[k] = deps[k].Add(sdk.NewCoins(d.Amount...).AmountOf(fxtypes.DefaultDenom))
+		return false, nil
+	})
+	spender := ""
+	for _, ev := range evs {
+		f := strings.SplitN(ev, ":", 3)
+		need, ok := deps[f[1]]
+		if !ok {
+			need = sdkmath.ZeroInt()
+		}
+		if bal.LT(need) {
+			return spender
+		}
+		bal = bal.Sub(need)
+		delete(deps, f[1])
+		if f[0] != "p" || len(f) < 3 {
+			continue
+		}
+		tmp, good := bal, true
+		for _, m := range strings.Split(f[2], ",") {
+			switch {
+			case m == "n":
+			case strings.HasPrefix(m, "s"):
+				amt, ok := sdkmath.NewIntFromString(m[1:])
+				if !ok || amt.GT(tmp) {
+					good = false
+				} else {
+					tmp = tmp.Sub(amt)
+				}
+			default: // f, d…
+				good = false
+			}
+		}
+		if good && tmp.LT(bal) {
+			spender = fmt.Sprintf("proposal %s in the same block: %s", f[1], f[2])
+			bal = tmp
+		}
+	}
+	return ""
+}
+
 func (g *gworld) inactiveDuePids(at time.Time) []uint64 {
 	var ids []uint64
 	rng := collections.NewPrefixUntilPairRange[time.Time, uint64](at)
@@ -540,24 +593,32 @@ func (g *gworld) opBlock(dt int64) {
 	}
 	escOp := strings.TrimSpace("gescb " + strings.Join(evs, " "))
 	bal0, total0 := g.escrowReal()
+	sameBlock := ""
+	if escOK {
+		sameBlock = g.sameBlockSpender(evs)
+	}
 	g.now = at
 	res := hx.Try(func() error { return finalizeAt(g.s, g.now) })
 	if res != "ok" {
 		g.dead = true
 		g.out.Emit(op, obs)
 		site := strings.TrimPrefix(panicSite(res), "panic:")
+		// the cause comes FIRST in the text: violations are grouped by the beginning of their description
+		head := "C07 block processing halts"
 		if strings.Contains(res, "insufficient funds") {
 			if escOK {
 				g.out.Emit(escOp, "halt")
 			}
 			if g.shortCause != "" {
-				site = "refund or burn of deposits fails for lack of funds, gov escrow spent by a proposal message (short since " + g.shortCause + ")"
+				head = "C07 block processing halts, gov escrow spent by a proposal message (short since " + g.shortCause + ")"
+			} else if sameBlock != "" {
+				head = "C07 block processing halts, gov escrow spent by a proposal message (" + sameBlock + ", whose payment makes a later refund of this block fail)"
 			} else {
-				site = fmt.Sprintf("refund or burn of deposits fails for lack of funds although no passed proposal message had left the account short before this block (it held %s for %s of deposits)", bal0, total0)
+				head = fmt.Sprintf("C07 block processing halts, a gov refund or burn fails although no passed proposal message had left the account short before this block (it held %s for %s of deposits)", bal0, total0)
 			}
 		}
-		g.out.Violate(fmt.Sprintf("C07 block processing halts: FinalizeBlock %s with %d proposal(s) due for tally and %d deposit period(s) expiring (gov end-blocker): %s",
-			strings.SplitN(res, ":", 2)[0], len(due), nInactive, site))
+		g.out.Violate(fmt.Sprintf("%s: FinalizeBlock %s with %d proposal(s) due for tally and %d deposit period(s) expiring (gov end-blocker): %s",
+			head, strings.SplitN(res, ":", 2)[0], len(due), nInactive, site))
 		g.out.Count("gblock:halt")
 		return
 	}
